@@ -1351,6 +1351,18 @@ func unmarshalTimestamp(info TypeInfo, data []byte, value interface{}) error {
 
 const millisecondsInADay int64 = 24 * 60 * 60 * 1000
 
+// daysSinceEpoch returns the number of whole days between 1970-01-01 and the
+// day that contains the given millisecond timestamp. The division rounds
+// towards negative infinity, so an instant before the epoch belongs to the
+// day it falls into and not to the following one.
+func daysSinceEpoch(timestamp int64) int64 {
+	days := timestamp / millisecondsInADay
+	if timestamp%millisecondsInADay < 0 {
+		days--
+	}
+	return days
+}
+
 func marshalDate(info TypeInfo, value interface{}) ([]byte, error) {
 	var timestamp int64
 	switch v := value.(type) {
@@ -1360,21 +1372,21 @@ func marshalDate(info TypeInfo, value interface{}) ([]byte, error) {
 		return nil, nil
 	case int64:
 		timestamp = v
-		x := timestamp/millisecondsInADay + int64(1<<31)
+		x := daysSinceEpoch(timestamp) + int64(1<<31)
 		return encInt(int32(x)), nil
 	case time.Time:
 		if v.IsZero() {
 			return []byte{}, nil
 		}
 		timestamp = int64(v.UTC().Unix()*1e3) + int64(v.UTC().Nanosecond()/1e6)
-		x := timestamp/millisecondsInADay + int64(1<<31)
+		x := daysSinceEpoch(timestamp) + int64(1<<31)
 		return encInt(int32(x)), nil
 	case *time.Time:
 		if v.IsZero() {
 			return []byte{}, nil
 		}
 		timestamp = int64(v.UTC().Unix()*1e3) + int64(v.UTC().Nanosecond()/1e6)
-		x := timestamp/millisecondsInADay + int64(1<<31)
+		x := daysSinceEpoch(timestamp) + int64(1<<31)
 		return encInt(int32(x)), nil
 	case string:
 		if v == "" {
@@ -1385,7 +1397,7 @@ func marshalDate(info TypeInfo, value interface{}) ([]byte, error) {
 			return nil, marshalErrorf("can not marshal %T into %s, date layout must be '2006-01-02'", value, info)
 		}
 		timestamp = int64(t.UTC().Unix()*1e3) + int64(t.UTC().Nanosecond()/1e6)
-		x := timestamp/millisecondsInADay + int64(1<<31)
+		x := daysSinceEpoch(timestamp) + int64(1<<31)
 		return encInt(int32(x)), nil
 	}
 
